@@ -369,6 +369,21 @@ static void gen_lookup_value(vh_rng_t *r, cfg_bb_t *l)
 {
   static const char *const v[] = { "file bind", "bind file", "bind", "file", "files dns",
                                    "local bind", "resolve files", "BIND FILE", "dns junk files" };
+  if (vh_chance(r, 1, 6)) {
+    /* the same sources named again and again, in turn: the order is that of first appearance, once each */
+    static const char *const fw[] = { "file", "files", "local" }, *const bw[] = { "bind", "dns", "resolve" };
+    int                      n    = vh_chance(r, 1, 2) ? vh_range(r, 3, 8) : vh_range(r, 20, 90), i, first = (int)vh_below(r, 2);
+    for (i = 0; i < n; i++) {
+      if (i) {
+        cfg_bb_ch(l, ' ');
+      }
+      cfg_bb_str(l, ((i + first) & 1) ? PICK(r, fw) : PICK(r, bw));
+      if (vh_chance(r, 1, 10)) {
+        cfg_bb_str(l, " nis");
+      }
+    }
+    return;
+  }
   cfg_bb_str(l, PICK(r, v));
 }
 
@@ -648,7 +663,14 @@ static unsigned gen_nsswitch_valid(vh_rng_t *r, cfg_lines_t *ls)
     if (vh_chance(r, 1, 2)) {
       cfg_bb_str(l, "hosts:");
       gen_ws(r, l, 0);
-      cfg_bb_str(l, PICK(r, hv));
+      if (vh_chance(r, 1, 6)) {
+        int k, nn = vh_chance(r, 1, 2) ? vh_range(r, 3, 8) : vh_range(r, 20, 90), f0 = (int)vh_below(r, 2);
+        for (k = 0; k < nn; k++) {
+          cfg_bb_str(l, ((k + f0) & 1) ? "files " : "dns ");
+        }
+      } else {
+        cfg_bb_str(l, PICK(r, hv));
+      }
       d |= D_LOOKUP;
     } else {
       cfg_bb_str(l, PICK(r, other));
